@@ -806,6 +806,13 @@ def rule_round5(repo, rep):
         raise AnalysisError(f"quantisation aliases: only {n_al} found")
     rep.check(True, "C11-i", "ethosu/vela", f"{n_al} local aliases of quantisation records are read only", "")
     rep.floor("C11-i", 4)
+    rep.clause("C11-t", "a memory-only operator that stays on the CPU is written: it joins an NPU subgraph only if it was placed on the NPU [rule shared with C16-i]")
+    from . import c16 as _c16t
+
+    rep.run_borrowed(_c16t, {"C16-i": "C11-t"}, repo)
+    rep.clause("C11-u", "operand vectors are read with the accessor of their own name")
+    rep.clause("C11-v", "hoisted CPU passes keep their source order (sort key = op_index of the first operator)")
+    rule_round8(repo, rep)
     rep.clause("C11-s", "constant buffers are viewed through the numpy type that has the name of their tensor type (no reinterpretation of the written constant data)")
     rep.clause("C11-r", "the writer restores the source tensor of an operand only if the operand is a constant (computed operands keep the tensor the graph produces)")
     rule_src_tensor_restore(repo, rep)
@@ -1094,3 +1101,30 @@ def rule_src_tensor_restore(repo, rep):
                           f"guard {cj}: a CPU-resident CONV_2D whose bias is produced by an NPU operator is written with the operand `b_cpu`, a tensor that is neither an input, a constant nor the output of any written operator")
     if n < 1:
         raise AnalysisError("tflite_writer: the restore of source tensors was not found")
+
+
+def rule_round8(repo, rep):
+    """(u) the reader fills inputs / outputs / intermediates of an operator each from the accessor of that name. (v) CPU passes hoisted to
+    the top keep their source order: the sort key is the op_index of the pass's first operator (`primary_op` is None for VAR_HANDLE,
+    READ_VARIABLE, CALL_ONCE and custom operators, which would all tie)."""
+    tr = repo.mod("tflite_reader")
+    f = tr.func("TFLiteSubgraph.parse_operator")
+    n = 0
+    for a in ast.walk(f):
+        if isinstance(a, ast.Assign) and len(a.targets) == 1 and isinstance(a.targets[0], ast.Name) and a.targets[0].id in ("inputs", "outputs", "intermediates"):
+            acc = [c for c in ast.walk(a.value) if isinstance(c, ast.Call) and isinstance(c.func, ast.Attribute) and c.func.attr.endswith("AsNumpy") and str(norm(c.func.value)) == "op_data"]
+            if acc:
+                n += 1
+                rep.check(all(c.func.attr.lower().startswith(a.targets[0].id) for c in acc), "C11-u", "ethosu/vela/tflite_reader.py:TFLiteSubgraph.parse_operator", f"`{a.targets[0].id}` is read with op_data.{a.targets[0].id.capitalize()}AsNumpy()",
+                          f"`{a.targets[0].id}` is filled from {[c.func.attr for c in acc]}: a CPU operator with an intermediates vector is written with its outputs as intermediates and the real intermediate tensors vanish from the file")
+    if n < 3:
+        raise AnalysisError(f"parse_operator: {n} operand vectors read")
+    pp = repo.mod("pass_packing")
+    g = pp.func("pack_into_passes")
+    srt = [c for c in ast.walk(g) if isinstance(c, ast.Call) and call_name(c) == "sorted" and c.args and str(norm(c.args[0])) == "pass_list_top"]
+    if len(srt) != 1:
+        raise AnalysisError("pack_into_passes: the sort of the hoisted CPU passes was not found")
+    key = [k.value for k in srt[0].keywords if k.arg == "key"]
+    t = str(norm(key[0])) if key else ""
+    rep.check("ops[0].op_index" in t and "primary_op" not in t, "C11-v", "ethosu/vela/pass_packing.py:pack_into_passes", "hoisted CPU passes are ordered by the op_index of their first operator",
+              f"key `{t[:90]}`: primary_op is None for VAR_HANDLE / READ_VARIABLE / CALL_ONCE / custom operators: they all get key -1 and keep the traversal order (CALL_ONCE after READ_VARIABLE: the variable is read before its init subgraph ran)")
